@@ -126,6 +126,7 @@ def diagStep (lt : LexTree) (g : Fsg) (shift : Nat) (s s' : SState) : String := 
     | none => pure ()
     return "table:?"
   if s'.hmms.size ≠ s.hmms.size then return "hmms:size"
+  if !decide s'.active.Nodup then return "hmms:active-list-has-duplicates"
   match s'.active.find? fun p => !decide (p < lt.nodes.size) with
   | some p => return s!"hmms:active-id {p}"
   | none => pure ()
